@@ -1081,6 +1081,234 @@ def midlife_sessions(report, backend, rng, tag, n_steps):
 
 
 # ------------------------------------------------------------------------------------------------------------
+# Connections that nothing but their being different connections tells apart.
+SAME_ID_LIMIT = 4
+SUB_NAMES = ["a", "b", "c", "d", "e", "f", "g", ""]
+
+
+def indistinguishable_connections(report, backend, rng, tag, n_steps):
+    """Several connections that arrive with the SAME remote address (a relay behind a reverse proxy / NAT, one host opening many
+    sockets) and whose connection ids have the same text as well: the relay's random source is replaced by one of very low entropy
+    (a pool of 1 or 2 values, whatever length is asked for), which stands for the collision that a short random suffix makes a
+    matter of a few hundred simultaneous connections.  All of them use the same few subscription ids, REQ / re-REQ / CLOSE them,
+    burst past the subscription limit, publish, disconnect and are replaced by newcomers (again with an id text already in use).
+    A connection is a connection, whatever its address and its id look like:
+      * after every step the registry (storage.clients) holds, as a multiset, exactly the subscription sets the connections opened
+        and did not close: a REQ / CLOSE / disconnect of one connection ends or replaces nothing of another, although the ids are equal;
+      * a REQ of a connection that holds fewer than the limit ITSELF gets its EOSE (nobody is charged for another's subscriptions);
+        a REQ beyond the own limit is answered, not obeyed;
+      * a fresh event is pushed once to exactly the open matching subscriptions of every open connection;
+      * nothing is sent to an ended connection; the registry is empty only after the last one left; no exception, no task left."""
+    import secrets
+
+    limit = SAME_ID_LIMIT
+    pool = rng.choice([1, 1, 2])
+    draws = {"n": 0}
+    real_hex = secrets.token_hex
+
+    def poor_hex(nbytes=None):
+        draws["n"] += 1
+        return ("%02x" % (draws["n"] % pool)) * (32 if nbytes is None else nbytes)
+
+    log = []
+    payload = {"backend": backend, "case": "indistinguishable-connections", "subscription_limit": limit, "tag": tag,
+               "random_source": "token_hex pinned to a pool of %d value(s)" % pool, "steps": log}
+    failed = []
+    relay = None
+
+    def fail(what, **more):
+        failed.append(what)
+        report.property_failure("%s: %s (all connections from one address, connection ids of equal text; step %d: %r)"
+                                % (backend, what, len(log), log[-1] if log else None), dict(copy.deepcopy(payload), **more), None)
+
+    try:
+        relay = Relay(backend, subscription_limit=limit)
+        secrets.token_hex = poor_hex
+        clients = []
+        authors = [k.public_key.hex() for k in KEYS]
+        addr = "10.%d.%d.%d" % (rng.randrange(256), rng.randrange(256), rng.randrange(1, 255))
+
+        def live():
+            return [s for s in clients if s.dead is None]
+
+        def connect():
+            s = _Client(Conn(relay, remote_addr=addr), "c%d" % len(clients))
+            clients.append(s)
+            log.append(["connect", s.name])
+            return s
+
+        def new_filter():
+            f = {}
+            r = rng.random()
+            if r < 0.8:
+                f["kinds"] = rng.choice([[1], [7], [1, 7], [EPHEMERAL], [1, EPHEMERAL], [1, 7, EPHEMERAL]])
+            if r > 0.6:
+                f["authors"] = rng.sample(authors, rng.choice([1, 2]))
+            if rng.random() < 0.3:
+                f["limit"] = rng.choice([1, 3, 50])
+            return f
+
+        def registry():
+            # (read as a multiset of subscription sets: the keys may well print alike here)
+            return sorted(sorted(v.keys()) for v in list(relay.storage.clients.values()) if v)
+
+        def world(why):
+            for s in clients:
+                if s.c.exc is not None:
+                    fail("%s escaped the handler of connection %s: %r" % (type(s.c.exc).__name__, s.name, s.c.exc))
+                    s.c.exc = None
+                if s.dead is None and s.c.done:
+                    fail("%s the handler of connection %s ended although the client did not disconnect (websocket closed with %r)"
+                         % (why, s.name, s.c.closed_with))
+                    s.subs.clear()
+                    s.dead = s.residue()
+            got = registry()
+            expected = sorted(sorted(s.subs) for s in live() if s.subs)
+            if got != expected:
+                fail("%s the registry holds the subscription sets %r, the %d open connection(s) have opened and not closed %r"
+                     % (why, got, len(live()), expected), open_by_connection={s.name: sorted(s.subs) for s in live()},
+                     ended=[s.name for s in clients if s.dead is not None])
+            for s in clients:
+                if s.dead is not None and s.residue() != s.dead:
+                    fail("%s connection %s, which has ended, was sent or had queued for it %d frame(s) / %d message(s) more"
+                         % (why, s.name, s.residue()[0] - s.dead[0], s.residue()[1] - s.dead[1]))
+                    s.dead = s.residue()
+
+        def publish(s, why):
+            kind = rng.choice([1, 1, 7, EPHEMERAL])
+            ev = relay.signed_event(KEYS[rng.randrange(3)], kind=kind, content="same id %s %s %d" % (backend, tag, len(log)))
+            log.append(["EVENT", s.name, {"kind": kind, "pubkey": ev["pubkey"]}])
+            marks = {t.name: len(t.c.out) for t in live()}
+            ok = s.c.send_event(ev)
+            if ok is not True:
+                fail("%s a fresh valid EVENT of connection %s was %s" % (why, s.name, "not answered" if ok is None else "refused"), event=ev)
+                return
+            for t in clients:
+                if t.name not in marks:
+                    continue
+                got = Counter(f[1] for f in t.c.frames(marks[t.name]) if isinstance(f, list) and len(f) > 2 and f[0] == "EVENT"
+                              and isinstance(f[2], dict) and f[2].get("id") == ev["id"])
+                want = sorted(sid for sid, f in t.subs.items() if _simple_match(f, ev))
+                if sorted(got) != want or any(n != 1 for n in got.values()):
+                    fail("%s an event published by %s was pushed to connection %s for the subscriptions %r; its open subscriptions that "
+                         "match are %r" % (why, s.name, t.name, dict(got), want), event=ev, open_subscriptions=dict(t.subs))
+                if want:
+                    report.count("same_id_pushes_due", len(want))
+
+        def reqs(s, items):
+            """one or several REQs of one connection (several: buffered together); the oracle counts only the connection's own"""
+            n0 = len(s.c.out)
+            refused = 0
+            for i, (sid, f) in enumerate(items):
+                log.append(["REQ", s.name, sid, f])
+                s.c.send(["REQ", sid, f], settle=i == len(items) - 1)
+            frames = s.c.frames(n0)
+            eose = Counter(x[1] for x in frames if isinstance(x, list) and len(x) > 1 and x[0] == "EOSE")
+            other = sum(1 for x in frames if isinstance(x, list) and x and x[0] in ("NOTICE", "CLOSED"))
+            want = Counter()
+            for sid, f in items:
+                if sid in s.subs or len(s.subs) < limit:
+                    s.subs[sid] = f
+                    want[sid] += 1
+                else:
+                    refused += 1
+            if refused:
+                report.count("same_id_reqs_beyond_the_own_limit", refused)
+            missing = sorted(k for k in want if eose[k] < want[k])
+            if missing:
+                fail("connection %s, which held fewer than the limit of %d subscriptions itself, got no EOSE for its REQ(s) %r "
+                     "(%d other open connection(s) hold %r)" % (s.name, limit, missing, len(live()) - 1,
+                                                               [sorted(t.subs) for t in live() if t is not s]),
+                     frames=[t[:200] for t in s.c.out[n0:n0 + 12]])
+            elif other < refused:
+                fail("%d REQ(s) of connection %s beyond its limit of %d subscriptions were met with silence" % (refused - other, s.name, limit))
+
+        for _ in range(rng.choice([2, 3, 4])):
+            connect()
+        # something stored, so that the REQs have an answer to carry to the right socket
+        publish(clients[0], "at the start,")
+        while len(log) < n_steps and not failed:
+            lv = live()
+            if not lv:
+                connect()
+                continue
+            s = rng.choice(lv)
+            r = rng.random()
+            if r < 0.10 and len(lv) < 6:
+                connect()
+            elif r < 0.45:
+                reqs(s, [(rng.choice(SUB_NAMES), new_filter())])
+            elif r < 0.52:
+                # a burst past the subscription limit, buffered together
+                names = rng.sample(SUB_NAMES, limit + rng.choice([1, 2, 3]))
+                reqs(s, [(sid, new_filter()) for sid in names])
+                report.count("same_id_bursts_past_the_limit")
+            elif r < 0.68:
+                others = sorted(set(k for t in lv if t is not s for k in t.subs))
+                sid = rng.choice(others) if others and rng.random() < 0.6 else rng.choice(SUB_NAMES)
+                log.append(["CLOSE", s.name, sid])
+                if sid not in s.subs and sid in others:
+                    report.count("same_id_close_of_an_id_only_others_hold")
+                s.c.send(["CLOSE", sid])
+                s.subs.pop(sid, None)
+            elif r < 0.88:
+                publish(s, "")
+            else:
+                log.append(["disconnect", s.name])
+                if any(t.subs for t in lv if t is not s):
+                    report.count("same_id_disconnects_while_others_hold_subscriptions")
+                s.c.close()
+                s.subs.clear()
+                s.dead = s.residue()
+                if not s.c.done:
+                    fail("the handler of connection %s did not end on its disconnect" % s.name)
+            world("after the step")
+        # ---- the connections leave one by one; the rest is served as before; empty only after the last ------
+        if not failed and len(live()) < 2:
+            connect()
+        for s in live():
+            if not failed and not s.subs:
+                reqs(s, [(SUB_NAMES[0], {"kinds": [1, 7, EPHEMERAL]})])
+        order = live()
+        rng.shuffle(order)
+        for s in order:
+            if failed:
+                break
+            log.append(["disconnect", s.name])
+            s.c.close()
+            s.subs.clear()
+            s.dead = s.residue()
+            if not s.c.done:
+                fail("the handler of connection %s did not end on its disconnect" % s.name)
+            world("after the disconnect")
+            rest = live()
+            if rest and not failed:
+                publish(rng.choice(rest), "after %s had gone," % s.name)
+                world("after %s had gone and another connection published," % s.name)
+        if not failed:
+            if len(relay.storage.clients):
+                fail("after the last connection left, the registry still has %d entr(ies)" % len(relay.storage.clients))
+            relay.settle()
+            left = [t for t in asyncio.all_tasks(relay.loop) if not t.done()]
+            names = sorted(getattr(t.get_coro(), "__qualname__", str(t)) for t in left)
+            leaked = [n for n in names if any(k in n for k in ("start_client", "send_subscriptions", "run_query", "notify", "_main"))]
+            if leaked:
+                fail("%d task(s) of ended connections are still pending: %r" % (len(leaked), sorted(set(leaked))))
+        report.case(("same-id", backend, tag, json.dumps(log, sort_keys=True)[:4000]), nontrivial=True,
+                    sample={"case": "indistinguishable-connections", "backend": backend, "steps": len(log), "connections": len(clients),
+                            "id_pool": pool, "first_steps": log[:6]})
+        report.count("same_id_sessions")
+        report.count("same_id_steps", len(log))
+        report.count("same_id_connections", len(clients))
+        for st in log:
+            report.count("same_id_step_" + st[0])
+    finally:
+        secrets.token_hex = real_hex
+        if relay is not None:
+            relay.close()
+
+
+# ------------------------------------------------------------------------------------------------------------
 # Slow consumers that resume.
 class _LoopClock:
     """The clock of the relay's event loop with an offset that the harness advances: `advance(s)` lets s seconds pass at once for
@@ -1450,6 +1678,8 @@ LIVE_FLOODS = {"quick": {"kv": [(2500, 1)], "sql": [(250, 30)]},
 MIDLIFE = {"quick": {"sql": (10, 40), "kv": (12, 40)}, "thorough": {"sql": (80, 80), "kv": (120, 80)}}
 # sessions of slow_consumer_resumes (1-2 stalls of STALL_S each, ~20-40 settled messages)
 SLOW_RESUME = {"quick": {"sql": 16, "kv": 20}, "thorough": {"sql": 150, "kv": 250}}
+# (sessions, steps per session) of indistinguishable_connections: a step is one settled message
+SAME_ID = {"quick": {"sql": (6, 45), "kv": (8, 45)}, "thorough": {"sql": (80, 90), "kv": (120, 90)}}
 
 
 def run(report, tier, seed):
@@ -1483,6 +1713,12 @@ def run(report, tier, seed):
         "reads again, once or twice per session, with and without NIP-42: either the relay closed the connection (the handler ends) or "
         "every REQ sent afterwards gets its EOSE, every EVENT its OK true, an event published by another connection afterwards "
         "arrives for every open matching subscription; the others are served throughout; clean ending, empty registry, no task left; "
+        "connections that nothing but their being different connections tells apart: 2-6 connections from ONE remote address on a "
+        "relay whose random source has a pool of 1-2 values (so the connection ids have equal text), subscription limit 4, all using "
+        "the same 8 subscription ids: REQ / re-REQ, bursts of limit+1..3 REQs buffered together, CLOSE (also of ids only others "
+        "hold), EVENT, disconnect, newcomers; after every step the registry holds, as a multiset, exactly the subscription sets "
+        "opened and not closed, a REQ under the OWN limit gets its EOSE, every event is pushed once to exactly the open matching "
+        "subscriptions of every open connection, nothing goes to an ended one, the registry is empty only after the last left; "
         "non-trivial = the frame got an answer")
     report.assumptions += ["quiescence after every frame", "the websocket layer (falcon/uvicorn) is replaced by in-memory callables; "
                            "frame size limits of the real server are not in scope"]
@@ -1506,6 +1742,12 @@ def run(report, tier, seed):
             n_sessions, n_steps = MIDLIFE[tier if tier == "quick" else "thorough"][backend]
             for i in range(n_sessions):
                 midlife_sessions(report, backend, rng, i, n_steps)
+        # (drawn from a generator of its own, so that the random choices of the scenarios around it stay what they were for a seed)
+        rng_same = random.Random("indistinguishable-connections-%s" % seed)
+        for backend in ("sql", "kv"):
+            n_sessions, n_steps = SAME_ID[tier if tier == "quick" else "thorough"][backend]
+            for i in range(n_sessions):
+                indistinguishable_connections(report, backend, rng_same, i, n_steps)
         for backend in ("sql", "kv"):
             for i in range(SLOW_RESUME[tier if tier == "quick" else "thorough"][backend]):
                 if not slow_consumer_resumes(report, backend, rng, i):
